@@ -73,8 +73,35 @@ fn base_cfgs() -> Vec<Cfg> {
 
 /// Configurations whose image is larger than 65 535 bytes (the byte count no longer fits 16 bits
 /// although the 16-bit *word* count still does): one per builder kind that can get there.
+/// A well-formed SDES configuration whose image is exactly `total` bytes (`pad` of them padding): one chunk whose items
+/// and terminator fill it completely. None when no such chunk exists.
+pub fn sdes_of_exactly(total: usize, pad: u8) -> Option<Cfg> {
+    // sum(items) == total - pad - 8 (header, SSRC) - 1 (terminator)
+    let mut left = total.checked_sub(pad as usize + 9)?;
+    let mut items = vec![];
+    while left >= 257 + 2 || left == 257 {
+        items.push(Item { type_: 1 + (items.len() % 7) as u8, prefix: vec![], value: "m".repeat(255) });
+        left -= 257;
+    }
+    if left > 257 {
+        items.push(Item { type_: 3, prefix: vec![], value: "y".repeat(100) });
+        left -= 102;
+    }
+    if left >= 2 {
+        items.push(Item { type_: 2, prefix: vec![], value: "z".repeat(left - 2) });
+        left = 0;
+    }
+    if left != 0 {
+        return None;
+    }
+    Some(Cfg::Sdes { chunks: vec![Chunk { ssrc: 0x0a0b_0c0d, items }], padding: pad })
+}
+
 pub fn large_cfgs() -> Vec<Cfg> {
     let mut v = vec![];
+    // the largest SDES packets there are: 65 536 words (length field 0xffff) and one word less
+    v.extend(sdes_of_exactly(262_144, 0));
+    v.extend(sdes_of_exactly(262_140, 0));
     for total in [65_532usize, 65_536, 65_540, 131_076, 262_144] {
         v.push(Cfg::App { ssrc: 0xa1a2_a3a4, subtype: 7, name: "LARG".into(), data: (0..total - 12).map(|i| (i * 7 + 3) as u8).collect(), padding: 0 });
         v.push(Cfg::Unknown { pt: 199, count: 5, data: (0..total - 4).map(|i| (i * 5 + 1) as u8).collect(), padding: 0 });
